@@ -524,3 +524,29 @@ Proof.
           end).
   inversion H; subst. reflexivity.
 Qed.
+
+(* ---- the hello does not depend on the caller's Config.MinVersion / MaxVersion / NextProtos ---- *)
+Lemma preset_exts_cfg sd c c' : c_sni c = c_sni c' -> c_omit_psk c = c_omit_psk c' ->
+  forall es seen keys echs, preset_exts sd c seen keys echs es = preset_exts sd c' seen keys echs es.
+Proof.
+  intros H1 H2. induction es as [|s es IH]; intros seen keys echs; [reflexivity|].
+  destruct s as [e|su ci en pl].
+  - destruct e; cbn [preset_exts]; rewrite ?H1, ?H2;
+      try (destruct seen as [|[|seen]]); rewrite ?IH; try reflexivity;
+      repeat (match goal with |- bind ?x _ = bind ?x _ => destruct x; cbn [bind]; try reflexivity end); rewrite ?IH; reflexivity.
+  - cbn [preset_exts]. destruct echs; [reflexivity|]. destruct (ech_init su ci en pl e); cbn [bind]; try reflexivity.
+    rewrite IH. reflexivity.
+Qed.
+
+Lemma apply_preset_cfg sp c c' fr : c_sni c = c_sni c' -> c_omit_psk c = c_omit_psk c' ->
+  apply_preset sp c fr = apply_preset sp c' fr.
+Proof.
+  intros H1 H2. unfold apply_preset.
+  destruct (set_tls_vers sp); cbn [bind]; try reflexivity.
+  destruct (hello_vers (fst a) (snd a)); cbn [bind]; try reflexivity.
+  destruct (negb (blen (f_random fr) =? 32)); [reflexivity|].
+  destruct (Grease.grease_seed (f_grease fr)); cbn [bind]; try reflexivity.
+  destruct (Grease.map_res (Grease.regrease a1 Grease.ssl_grease_cipher) (sp_suites sp)); cbn [bind]; try reflexivity.
+  destruct (negb (blen (f_sid fr) =? 32)); [reflexivity|].
+  rewrite (preset_exts_cfg _ c c' H1 H2). reflexivity.
+Qed.
